@@ -3,7 +3,7 @@ operation histories against a cache-state model (DESIGN 3.4)."""
 import copy
 
 from .. import world
-from ..oracle import Violation, exc_text, tree_diff
+from ..oracle import Violation, exc_text, scribble, tree_diff
 from ..sim import SIM
 from . import common
 
@@ -13,7 +13,8 @@ RULE = ("seeded runs; a run = product (local 2/3, simfs 1/3) x a history of 3-10
         "drawn (swarm-masked) from open(use_cache in {T,F,absent} x create_cache in {T,F,absent} "
         "x rpc in {1,2,N-1,N,N+1,1024,absent} x URL spelling), cli-create(image, rpc) next to the "
         "image, delete user cache (all|image), delete adjacent cache (all|image), late-load of a "
-        "tree returned by an earlier step, process restart; invariants after every step (tree "
+        "tree returned by an earlier step, in-place modification by the caller of a tree returned "
+        "earlier (values of metadata variables, attrs), process restart; invariants after every step (tree "
         "identical to reference(rpc) incl. pixels and advertised chunk size; product directory "
         "unchanged except adjacent index files created by the CLI; user cache dir holds only "
         "*.index and changes only in create_cache=True steps; no write-type file operation on any "
@@ -41,9 +42,9 @@ def generate(rng, tier, index):
     n = rng.choice(wp["images"])["lines"]
     rpcs = [1, 2, max(n - 1, 1), n, n + 1, 1024, None]
     kinds = ["open", "open", "open", "open", "cli", "rm-user", "rm-adjacent", "late-load",
-             "restart"]
+             "restart", "scribble"]
     # swarm: mask some operation kinds for this run
-    mask = {k for k in ("cli", "rm-user", "rm-adjacent", "late-load", "restart")
+    mask = {k for k in ("cli", "rm-user", "rm-adjacent", "late-load", "restart", "scribble")
             if rng.random() < 0.3}
     if not local:
         mask.add("cli")
@@ -66,6 +67,8 @@ def generate(rng, tier, index):
             ops.append({"op": k, "image": rng.choice([None, rng.randrange(len(wp["images"]))])})
         elif k == "late-load":
             ops.append({"op": "late-load", "back": rng.randint(1, 4)})
+        elif k == "scribble":
+            ops.append({"op": "scribble", "back": rng.randint(1, 3)})
         else:
             ops.append({"op": "restart"})
     return {"world": wp, "ops": ops}
@@ -99,7 +102,8 @@ def execute(plan):
                     kw = {"use_cache": False}
                     if op["rpc"] is not None:
                         kw["records_per_chunk"] = op["rpc"]
-                    refs[op["rpc"]] = w.open(**kw)
+                    # loaded and deep-copied: the reference owns its values whatever later calls share
+                    refs[op["rpc"]] = w.open(**kw).load().copy(deep=True)
                     tree_diff(refs[op["rpc"]], refs[op["rpc"]])
         except Exception as e:  # noqa: BLE001
             stats["reference-raised:" + type(e).__name__] = 1
@@ -161,16 +165,17 @@ def execute(plan):
                     bad("step-raised", f"cli:{type(e).__name__}", step=step, op=op,
                         error=exc_text(e))
                 if rc not in (0, None):
-                    bad("cli-failed", "cli", step=step, op=op, exit_status=rc,
-                        stderr=w.cli_stderr.getvalue()[:200])
-                if rc == 0:
-                    data = w.read_file(img + ".index")
-                    if data is None:
-                        bad("cli-wrote-nothing", "cli", step=step, op=op)
-                    else:
-                        import hashlib
+                    # the property is about what opens return and what they touch; a tool that
+                    # reports failure (exit status) is counted, not judged
+                    stats["cli-exit-status-nonzero"] = stats.get("cli-exit-status-nonzero", 0) + 1
+                # whatever index the tool left next to the image is its legitimate output
+                data = w.read_file(img + ".index")
+                if data is not None:
+                    import hashlib
 
-                        expected_adjacent[img + ".index"] = hashlib.sha256(data).hexdigest()[:16]
+                    expected_adjacent[img + ".index"] = hashlib.sha256(data).hexdigest()[:16]
+                else:
+                    expected_adjacent.pop(img + ".index", None)
             elif kind == "rm-user":
                 img = None if op["image"] is None else prod.images[op["image"]]
                 w.clear_user_cache(img)
@@ -194,6 +199,16 @@ def execute(plan):
                             diffs=diffs, ops_between=[o["op"] for o in plan["ops"][st + 1:step]])
                 else:
                     stats["late-load-skipped"] = stats.get("late-load-skipped", 0) + 1
+            elif kind == "scribble":
+                # the caller modifies, in place, a tree it was given earlier (its own copy of the
+                # metadata values and attrs); that tree leaves the history, later results must
+                # not be affected
+                alive = [h for h in history if h[3] == epoch]
+                if alive:
+                    victim = alive[max(len(alive) - op["back"], 0)]
+                    scribble(victim[2])
+                    history.remove(victim)
+                    stats["scribbles"] = stats.get("scribbles", 0) + 1
             elif kind == "restart":
                 world.restart()
                 epoch += 1
